@@ -48,6 +48,47 @@ NEEDS = {
     "C19-m2": "calculation stack cached in the calculator: a failed evaluation followed by a good one, or two goroutines on one calculator (data race)",
     "C20-m1": "SetAsArray keeps an empty caller list with spare capacity: the variant grows in place, then the caller appends",
     "C20-m2": "type guard moved behind the array branch of Equals: an empty array compared with a non-array value",
+    # round 2: changes designed to evade a harness like this one (rare values, thresholds, rare API paths)
+    "C01-m3": "arguments after the 8th collected in pop order: a call with >= 10 arguments to an order-sensitive function",
+    "C01-m4": "ParseString skips re-parsing when the new text is EqualFold-equal to the last one: same calculator, expression differing only in the letter case of a string literal",
+    "C02-m3": "Word tokens spelling a keyword re-typed as Keyword: quoted identifiers such as \"null\", \"is\", \"not\"",
+    "C02-m4": "the parser's private tokenizer set to skip unknown characters: a code point >= U+10000 or U+FFFF outside a literal is silently dropped",
+    "C03-m3": "function parameters in a fixed 16-slot buffer: a call with >= 17 arguments panics in the calculator",
+    "C03-m4": "keyword lookup with EqualFold while the tokenizer uses ToUpper: LIKE spelled with dotless i (U+0131) panics with index -1",
+    "C04-m3": "NewStringScanner drops a leading U+FEFF: input starting with a byte order mark",
+    "C04-m4": "whitespace collected in a 16-rune chunk that drops the rune which fills it: a blank run of >= 17 characters",
+    "C05-m3": "Lookup moves the matching interval to the front (changes override priority): overlapping intervals above U+00FF (non-Latin CSV separator) and an earlier non-Latin input",
+    "C05-m4": "name index for collections > 32 entries registers appended names without upper-casing: a calculator that accumulated >= 33 variables, then a new lower-case name",
+    "C06-m3": "Equal on Float/Double with a relative 2^-52 tolerance: two doubles exactly one ulp apart",
+    "C06-m4": "MoreEqual / LessEqual compare time.Time with ==: the same instant in another zone / as Unix seconds",
+    "C07-m3": "type-safe Integer/Long -> Float via float64 (double rounding): |v| > 2^53 with a bit pattern on a float32 tie",
+    "C07-m4": "Integer/Long -> DateTime counted from local midnight 1970: a process whose local zone has a UTC offset",
+    "C08-m3": "DayOfWeek of the UTC date: a date-time whose own calendar day differs from the UTC day",
+    "C08-m4": "Rnd = float32(rand.Float64()): returns exactly 1.0 with probability 2^-25 per draw",
+    "C09-m3": "NewStringScanner drops a leading U+FEFF: first field of the first row starts with it",
+    "C09-m4": "quoted field collected in 256-rune chunks dropping every 257th character: a quoted field of >= 257 characters",
+    "C10-m3": "GetVariable pre-filters keys by byte length: a name with a letter whose case mapping changes the UTF-8 length (U+023A / U+2C65)",
+    "C10-m4": "EvaluateWithVariables falls back to the defaults for len(map) == 0: non-empty defaults and an explicit empty map",
+    "C11-m3": "Unread rescans from a checkpoint every 1024 characters without the preceding character: LF CR straddling offset 1024*k and a slow-path Unread behind it",
+    "C11-m4": "isLine uses a 256-entry table indexed with ch & 0xff: code points whose low byte is 0x0A / 0x0D (U+4E0D, U+010D, U+200D ...)",
+    "C12-m3": "Unread's recount from a 1024-character checkpoint counts the checkpoint character twice: input > 1024 characters and an unread line break behind it",
+    "C12-m4": "U+2028 / U+2029 added to isLine but not to isColumn: one of them right after a token that looks ahead and unreads",
+    "C13-m3": "expression quote state collects in 64-rune chunks dropping the 65th: a quoted literal of >= 65 characters",
+    "C13-m4": "IsDigit = unicode.IsDigit: a number directly followed by a lexeme starting with a non-ASCII decimal digit",
+    "C14-m3": "scanner content decoded in 4096-byte pieces: input > 4 KB with a multi-byte character across a piece boundary",
+    "C14-m4": "CSV EncodeString drops utf8.RuneError: a value containing U+FFFD",
+    "C15-m3": "skip loop bounded to 64 iterations returns the last skipped token: >= 64 skipped tokens inside one NextToken call",
+    "C15-m4": "precedence slip in the mustache close test: decode-strings on and a quoted string whose content is exactly }}}",
+    "C16-m3": "AddInterval shifts the interval list upwards in place: a node with >= 3 distinct child characters above U+00FF",
+    "C16-m4": "children kept in a 16-entry list, the 17th child lost when switching to the map: > 16 symbols sharing a prefix",
+    "C17-m3": "interval bounds stored as uint16 and probes narrowed: a code point >= U+10000 whose low 16 bits fall into a registered range",
+    "C17-m4": "compaction of 'hidden' intervals after > 128 registrations with a wrong hidden test: a wide old interval whose ends were re-registered separately, probe in the gap",
+    "C18-m3": "ASCII case folding with |0x20 on all bytes: names that differ in a punctuation pair such as [ / { or ^ / ~",
+    "C18-m4": "dedupe index built at the 17th distinct name forgets that name: >= 17 distinct variables with the 17th repeated",
+    "C19-m3": "one package-level symbol table shared by all expression tokenizers, lazily filled: separate calculators racing on the first use of a symbol in the process",
+    "C19-m4": "per-calculator memo of resolved functions keyed by name only: one calculator evaluated with two different function lists",
+    "C20-m3": "SetAsArray keeps an empty non-nil caller list with spare capacity: variant grows in place, caller appends afterwards",
+    "C20-m4": "cycle guard in Equals never un-marks visited arrays: the same array object twice inside the receiver",
 }
 
 
